@@ -96,6 +96,7 @@ type vchan struct {
 
 type Timer struct {
 	C     <-chan time.Time // nil, as for a timer made by time.AfterFunc
+	after chan time.Time   // time.After: firing delivers a value on this (virtual) channel instead of calling f
 	s     *Sched
 	vc    vclock
 	id    int
@@ -560,6 +561,12 @@ func (s *Sched) apply(a Alt) *thread {
 			tm := s.timers[a.Timer]
 			tm.armed = false
 			s.FireBudget--
+			if tm.after != nil {
+				_, c := s.vc(tm.after)
+				c.buf = append(c.buf, time.Time{})
+				c.vcs = append(c.vcs, tm.vc.copy())
+				return nil
+			}
 			nt := s.spawn(fmt.Sprintf("timer#%d-callback", tm.id), tm.f, true)
 			nt.vc = tm.vc.copy()
 			nt.vc.set(nt.id, 1)
@@ -1166,6 +1173,23 @@ func AfterFunc(d time.Duration, f func()) *Timer {
 	s.timers = append(s.timers, t)
 	s.mu.Unlock()
 	return t
+}
+
+// After is time.After under the scheduler: the returned channel receives one value when the scheduler takes the
+// timer's firing transition (fire budget).
+func After(d time.Duration) <-chan time.Time {
+	s := mine()
+	ch := make(chan time.Time, 1)
+	s.mu.Lock()
+	t := &Timer{s: s, id: len(s.timers), armed: true, after: ch, site: site()}
+	if s.cur != nil {
+		t.vc = s.cur.vc.copy()
+		s.cur.tick()
+	}
+	s.timers = append(s.timers, t)
+	s.vc(ch)
+	s.mu.Unlock()
+	return ch
 }
 
 func (t *Timer) Stop() bool {
